@@ -10,10 +10,10 @@ exactly the key the documented `SendKeyMode` table prescribes for the client's k
 leaves Refinery with a blank API key.
 
 The model (`Refinery.Model.Auth`) mirrors the code, including the order in which each endpoint
-calls `IsAccepted` and `GetReplaceKey`.  The gRPC trace endpoint replaces first and then runs
-`IsAccepted` on the *replaced* key; for it the uniformity statement is false, which is proved here
-with a witness (`uniform_refuted`), together with what does hold (`uniform_partial`,
-`grpcTraces_diverges_iff`, `grpcTraces_divergent_cells`).
+calls `IsAccepted` and `GetReplaceKey`.  The gRPC trace endpoint used to replace first and accept
+on the *replaced* key (uniformity was refuted with a witness); since the fix it accepts on the
+client's key first and `uniform` is proved for all six endpoints.  Its second `IsAccepted`, on the
+replaced key in `ExportTraceData`, is shown to be redundant (`grpcTraces_second_check_redundant`).
 -/
 set_option linter.unusedSimpArgs false
 
@@ -244,10 +244,12 @@ theorem never_blank (ep : Endpoint) (c : Cfg) (env : Env) (hh : env.huskyOK "" =
   case otlpTracesGRPC =>
     split at h
     · cases h
-    · rename_i r' hr
-      repeat' split at h
-      all_goals first | cases h | skip
-      all_goals exact replace_never_blank hr
+    · split at h
+      · cases h
+      · rename_i r' hr
+        repeat' split at h
+        all_goals first | cases h | skip
+        all_goals exact replace_never_blank hr
   case otlpLogsGRPC =>
     repeat' split at h
     all_goals first | cases h | skip
@@ -270,34 +272,34 @@ def Uniform : Prop :=
 
 def witnessEnv : Env := { legacy := fun _ => false, authID := fun _ => "", huskyOK := fun k => k != "" }
 
+/-- the configuration of the former counterexample (gRPC traces accepted `U` and sent `S`) -/
 def witnessCfg : Cfg :=
   { receiveKeys := ["L"], sendKey := "S", sendKeyMode := "all", acceptOnlyListed := true }
 
-/-- **uniform is false of the code as it is.**  Witness: `AcceptOnlyListedKeys: true`,
-`ReceiveKeys: [L]`, `SendKey: S`, `SendKeyMode: all`, client key `U` (not listed).  Every other
-endpoint refuses `U`; the gRPC trace endpoint replaces `U` by `S` first, finds `S` acceptable and
-sends the data upstream with `S`. -/
-theorem uniform_refuted : ¬ Uniform := by
-  intro h
-  have := h .otlpTracesGRPC witnessCfg witnessEnv (fun _ => rfl) "U"
-  revert this
-  decide
+/-- `SendKey`, when set, is always acceptable -/
+theorem sendKey_accepted (c : Cfg) (hs : c.sendKey ≠ "") (kid : String) :
+    isAccepted c c.sendKey kid = true := by
+  unfold isAccepted; cases c.acceptOnlyListed <;> simp [hs]
 
-example : handle .otlpTracesGRPC witnessCfg witnessEnv "U" = .sent "S" := by decide
-example : handle .otlpLogsGRPC witnessCfg witnessEnv "U" = .rejected .unlisted := by decide
-example : handle .otlpTracesHTTP witnessCfg witnessEnv "U" = .rejected .unlisted := by decide
-example : handle .event witnessCfg witnessEnv "U" = .rejected .unlisted := by decide
-example : handle .otlpTracesGRPC witnessCfg witnessEnv "" = .sent "S" := by decide
-example : refHandle witnessCfg witnessEnv "L" = some "S" := by decide
+/-- **The second acceptance check of the gRPC trace endpoint is redundant**: when the client's key
+is acceptable, the key `GetReplaceKey` yields (the client's key itself or `SendKey`) is acceptable
+too, with the key ID looked up for it — so `ExportTraceData`'s `IsAccepted` on the replaced key
+never refuses a request `customTraceExportHandler` let through. -/
+theorem grpcTraces_second_check_redundant (c : Cfg) (env : Env) (k r : String)
+    (hacc : isAccepted c k (keyIDOf c env k) = true)
+    (hr : getReplaceKey c k (keyIDOf c env k) = some r) :
+    isAccepted c r (keyIDOf c env r) = true := by
+  rcases replace_result hr with h1 | ⟨h1, hs⟩
+  · subst h1; exact hacc
+  · subst h1; exact sendKey_accepted c hs _
 
-/-- **uniform_partial** — every endpoint except gRPC traces is uniform: single events, batches,
-OTLP traces and logs over HTTP and OTLP logs over gRPC accept exactly on the client's key and send
-exactly the replacement of the client's key, for all configurations and keys. -/
-theorem uniform_partial (ep : Endpoint) (hep : ep ≠ .otlpTracesGRPC) (c : Cfg) (env : Env)
-    (hh : env.HuskySpec) (k : String) : (handle ep c env k).key? = refHandle c env k := by
+/-- **uniform** — all six endpoints (single events, batches, OTLP traces and logs over HTTP and
+over gRPC) accept exactly on the client's key and send exactly the replacement of the client's key,
+for all configurations, environments (with husky refusing a blank key) and keys. -/
+theorem uniform : Uniform := by
+  intro ep c env hh k
   have hb : env.huskyOK "" = false := by rw [hh]; rfl
-  cases ep <;> simp only [handle, handleV1, handleOTLPHTTP, handleLogsGRPC, refHandle]
-  case otlpTracesGRPC => exact absurd rfl hep
+  cases ep <;> simp only [handle, handleV1, handleOTLPHTTP, handleLogsGRPC, handleTracesGRPC, refHandle]
   case event | batch =>
     cases isAccepted c k (keyIDOf c env k) <;> simp [Result.key?]
     cases getReplaceKey c k (keyIDOf c env k) <;> simp [Result.key?]
@@ -311,6 +313,17 @@ theorem uniform_partial (ep : Endpoint) (hep : ep ≠ .otlpTracesGRPC) (c : Cfg)
       have hr0 := replace_never_blank hr
       have : env.huskyOK r = true := by rw [hh]; simpa using hr0
       simp [this, hr0, Result.key?]
+  case otlpTracesGRPC =>
+    cases hacc : isAccepted c k (keyIDOf c env k) with
+    | false => simp [Result.key?]
+    | true =>
+      cases hr : getReplaceKey c k (keyIDOf c env k) with
+      | none => simp [Result.key?]
+      | some r =>
+        have hr0 := replace_never_blank hr
+        have h1 : env.huskyOK r = true := by rw [hh]; simpa using hr0
+        have h2 := grpcTraces_second_check_redundant c env k r hacc hr
+        simp [h1, h2, Result.key?]
   case otlpLogsGRPC =>
     cases isAccepted c k (keyIDOf c env k) <;> simp [Result.key?]
     cases hr : getReplaceKey c k (keyIDOf c env k) with
@@ -320,79 +333,15 @@ theorem uniform_partial (ep : Endpoint) (hep : ep ≠ .otlpTracesGRPC) (c : Cfg)
       have : env.huskyOK r = true := by rw [hh]; simpa using hr0
       simp [this, Result.key?]
 
-/-- `SendKey`, when set, is always acceptable -/
-theorem sendKey_accepted (c : Cfg) (hs : c.sendKey ≠ "") (kid : String) :
-    isAccepted c c.sendKey kid = true := by
-  unfold isAccepted; cases c.acceptOnlyListed <;> simp [hs]
-
-/-- what the gRPC trace endpoint computes -/
-theorem grpcTraces_key (c : Cfg) (env : Env) (hh : env.HuskySpec) (k : String) :
-    (handle .otlpTracesGRPC c env k).key? =
-      match getReplaceKey c k (keyIDOf c env k) with
-      | none => none
-      | some r => if isAccepted c r (keyIDOf c env r) then some r else none := by
-  simp only [handle, handleTracesGRPC]
-  cases hr : getReplaceKey c k (keyIDOf c env k) with
-  | none => simp [Result.key?]
-  | some r =>
-    have hr0 := replace_never_blank hr
-    have : env.huskyOK r = true := by rw [hh]; simpa using hr0
-    cases hacc : isAccepted c r (keyIDOf c env r) <;> simp [this, hacc, Result.key?]
-
-/-- The gRPC trace endpoint never refuses what the reference accepts and never sends a different key:
-it only *over-accepts*. -/
-theorem grpcTraces_over_accepts_only (c : Cfg) (env : Env) (hh : env.HuskySpec) (k r : String)
-    (h : refHandle c env k = some r) : (handle .otlpTracesGRPC c env k).key? = some r := by
-  rw [grpcTraces_key c env hh]
-  unfold refHandle at h
-  simp only at h
-  cases hacc : isAccepted c k (keyIDOf c env k) with
-  | false => simp [hacc] at h
-  | true =>
-    simp only [hacc, if_true] at h
-    rw [h]
-    rcases replace_result h with h1 | ⟨h1, hs⟩
-    · subst h1; simp [hacc]
-    · subst h1; simp [sendKey_accepted c hs]
-
-/-- **Exactly when the gRPC trace endpoint diverges**: the client's key is not acceptable, but
-`SendKeyMode` replaces it by `SendKey` — then the request is accepted and sent with `SendKey`. -/
-theorem grpcTraces_diverges_iff (c : Cfg) (env : Env) (hh : env.HuskySpec) (k : String) :
-    (handle .otlpTracesGRPC c env k).key? ≠ refHandle c env k ↔
-      (isAccepted c k (keyIDOf c env k) = false ∧ c.sendKey ≠ "" ∧
-        getReplaceKey c k (keyIDOf c env k) = some c.sendKey) := by
-  constructor
-  · intro hne
-    cases href : refHandle c env k with
-    | some r => exact absurd (by rw [grpcTraces_over_accepts_only c env hh k r href]) (href ▸ hne)
-    | none =>
-      rw [href, grpcTraces_key c env hh] at hne
-      have hacc_or : isAccepted c k (keyIDOf c env k) = false ∨
-          getReplaceKey c k (keyIDOf c env k) = none := by
-        unfold refHandle at href
-        simp only at href
-        cases hacc : isAccepted c k (keyIDOf c env k) with
-        | false => exact Or.inl rfl
-        | true => simp only [hacc, if_true] at href; exact Or.inr href
-      cases hr : getReplaceKey c k (keyIDOf c env k) with
-      | none => simp [hr] at hne
-      | some r =>
-        rcases hacc_or with hacc | hnone
-        · rcases replace_result hr with h1 | ⟨h1, hs⟩
-          · subst h1; simp [hr, hacc] at hne
-          · subst h1; exact ⟨hacc, hs, rfl⟩
-        · rw [hr] at hnone; cases hnone
-  · rintro ⟨hacc, hs, hr⟩
-    rw [grpcTraces_key c env hh, hr]
-    simp [refHandle, hacc, sendKey_accepted c hs]
-
-/-- … and what it does then -/
-theorem grpcTraces_divergence_sends_sendKey (c : Cfg) (env : Env) (hh : env.HuskySpec) (k : String)
-    (h : (handle .otlpTracesGRPC c env k).key? ≠ refHandle c env k) :
-    (handle .otlpTracesGRPC c env k).key? = some c.sendKey ∧ refHandle c env k = none := by
-  obtain ⟨hacc, hs, hr⟩ := (grpcTraces_diverges_iff c env hh k).mp h
-  rw [grpcTraces_key c env hh, hr]
-  simp [refHandle, hacc, sendKey_accepted c hs]
+/-! Non-vacuity, on the former counterexample: every endpoint now refuses the unlisted key `U` and
+the missing key, and forwards the listed key `L` with `SendKey`. -/
+example : handle .otlpTracesGRPC witnessCfg witnessEnv "U" = .rejected .unlisted := by decide
+example : handle .otlpTracesGRPC witnessCfg witnessEnv "" = .rejected .unlisted := by decide
+example : handle .otlpTracesGRPC witnessCfg witnessEnv "L" = .sent "S" := by decide
+example : handle .otlpLogsGRPC witnessCfg witnessEnv "U" = .rejected .unlisted := by decide
+example : handle .otlpTracesHTTP witnessCfg witnessEnv "U" = .rejected .unlisted := by decide
+example : handle .event witnessCfg witnessEnv "U" = .rejected .unlisted := by decide
+example : refHandle witnessCfg witnessEnv "L" = some "S" := by decide
 
 /-! Non-vacuity of the table: concrete configurations, evaluated by the kernel. -/
 example : getReplaceKey { sendKey := "S", sendKeyMode := "listedonly", receiveKeys := ["L"] } "L" "" = some "S" := by decide
@@ -416,72 +365,25 @@ theorem ref_eq_doc (c : Cfg) (m : Mode) (hm : c.sendKeyMode = m.name) (hwf : WF 
   simp only
   rw [accept_by_class c hwf k _ (keyIDOf_blank c env k), replace_table c m hm hwf k _ (keyIDOf_blank c env k)]
 
-/-- **Every endpoint except gRPC traces does what the documentation says**, for all well-formed
-configurations with an accepted mode, all keys: accepted iff `AcceptOnlyListedKeys` is off or the
-client's key is `SendKey`/listed/listed by ID; upstream key = the documented table's. -/
-theorem endpoints_match_documentation (ep : Endpoint) (hep : ep ≠ .otlpTracesGRPC) (c : Cfg)
+/-- **Every endpoint does what the documentation says**, for all well-formed configurations with
+an accepted mode and all keys: accepted iff `AcceptOnlyListedKeys` is off or the client's key is
+`SendKey`/listed/listed by ID; upstream key = the documented table's; nothing leaves blank. -/
+theorem endpoints_match_documentation (ep : Endpoint) (c : Cfg)
     (m : Mode) (hm : c.sendKeyMode = m.name) (hwf : WF c) (env : Env) (hh : env.HuskySpec) (k : String) :
     (handle ep c env k).key? = docOutcome c m k (keyIDOf c env k) := by
-  rw [uniform_partial ep hep c env hh k, ref_eq_doc c m hm hwf env k]
+  rw [uniform ep c env hh k, ref_eq_doc c m hm hwf env k]
 
-theorem classify_blank {c : Cfg} {k kid : String} (h : classify c k kid = .blank) : k = "" := by
-  unfold classify at h
-  by_cases hk : k = ""
-  · exact hk
-  · have : (k == "") = false := by simpa using hk
-    simp only [this, Bool.false_eq_true, if_false] at h
-    repeat' split at h
-    all_goals cases h
-
-theorem classify_unlisted {c : Cfg} {k kid : String} (h : classify c k kid = .unlisted) :
-    k ≠ "" ∧ (c.sendKey ≠ "" → k ≠ c.sendKey) := by
-  unfold classify at h
-  by_cases hk : k = ""
-  · simp [hk] at h
-  · refine ⟨hk, fun hs he => ?_⟩
-    have h0 : (k == "") = false := by simpa using hk
-    have h1 : (c.sendKey != "" && k == c.sendKey) = true := by simp [hs, he]
-    simp [h0, h1] at h
-
-/-- the cells (mode, key class) in which an unauthorised key is replaced by `SendKey` -/
-def divergentCell (m : Mode) (cl : KeyClass) : Bool := !cl.authorised && (docTable m cl).isSend
-
-/-- they are exactly these five -/
-theorem divergentCell_list :
-    (Mode.list.flatMap fun m => KeyClass.list.filterMap fun cl =>
-      if divergentCell m cl then some (m.name, cl.name) else none) =
-    [("all", "blank"), ("all", "unlisted"), ("nonblank", "unlisted"), ("unlisted", "unlisted"),
-      ("missingonly", "blank")] := by decide
-
-/-- **The divergent cells of the gRPC trace endpoint**: with a well-formed configuration and an
-accepted mode it deviates from the uniform behaviour exactly when `AcceptOnlyListedKeys` is on, a
-`SendKey` is set and (mode, class of the client's key) is one of `divergentCell_list`: the request of
-an unlisted or blank key is accepted and forwarded with `SendKey`. -/
-theorem grpcTraces_divergent_cells (c : Cfg) (m : Mode) (hm : c.sendKeyMode = m.name) (hwf : WF c)
-    (env : Env) (hh : env.HuskySpec) (k : String) :
-    (handle .otlpTracesGRPC c env k).key? ≠ refHandle c env k ↔
-      (c.acceptOnlyListed = true ∧ c.sendKey ≠ "" ∧
-        divergentCell m (classify c k (keyIDOf c env k)) = true) := by
-  rw [grpcTraces_diverges_iff c env hh k, accept_by_class c hwf k _ (keyIDOf_blank c env k),
-    replace_table c m hm hwf k _ (keyIDOf_blank c env k)]
-  unfold acceptedByClass docReplace divergentCell
-  by_cases hs : c.sendKey = ""
-  · simp [hs]
-  · have hb := @classify_blank c k (keyIDOf c env k)
-    have hu := @classify_unlisted c k (keyIDOf c env k)
-    cases hcl : classify c k (keyIDOf c env k)
-    case blank =>
-      have hk := hb hcl
-      cases m <;> cases c.acceptOnlyListed <;>
-        simp [hs, hk, realize, docTable, KeyClass.authorised, Action.isSend]
-      all_goals exact fun h => hs h.symm
-    case unlisted =>
-      obtain ⟨hk, hne⟩ := hu hcl
-      have hne' := hne hs
-      cases m <;> cases c.acceptOnlyListed <;>
-        simp [hs, hk, hne', realize, docTable, KeyClass.authorised, Action.isSend]
-    all_goals
-      cases m <;> cases c.acceptOnlyListed <;>
-        simp [hs, realize, docTable, KeyClass.authorised, Action.isSend]
+/-- in particular an unauthorised key (blank or unlisted under `AcceptOnlyListedKeys`) is refused on
+every endpoint whatever the `SendKeyMode` — the five cells in which gRPC traces used to forward such
+a request with `SendKey` included -/
+theorem unauthorised_key_refused (ep : Endpoint) (c : Cfg) (hwf : WF c) (env : Env)
+    (hh : env.HuskySpec) (k : String) (haolk : c.acceptOnlyListed = true)
+    (hcl : (classify c k (keyIDOf c env k)).authorised = false) :
+    (handle ep c env k).key? = none := by
+  rw [uniform ep c env hh k]
+  unfold refHandle
+  simp only
+  rw [accept_by_class c hwf k _ (keyIDOf_blank c env k)]
+  simp [acceptedByClass, haolk, hcl]
 
 end Refinery.Props.C24
